@@ -94,8 +94,31 @@ var VClock time.Time
 
 func VerifNow() time.Time { return VClock }
 
-var errRefused = errors.New("dial tcp: connection refused")
-var errTimeout = errors.New("i/o timeout")
+// simNetErr: what the net package reports - an error that implements
+// net.Error. A connection attempt can also fail with an error that does not
+// (the peer closes or sends garbage during the TLS handshake: io.EOF,
+// tls.RecordHeaderError), see refusal().
+type simNetErr struct {
+	msg     string
+	timeout bool
+}
+
+func (e *simNetErr) Error() string   { return e.msg }
+func (e *simNetErr) Timeout() bool   { return e.timeout }
+func (e *simNetErr) Temporary() bool { return e.timeout }
+
+var errRefused error = &simNetErr{msg: "dial tcp: connection refused"}
+var errTimeout error = &simNetErr{msg: "i/o timeout", timeout: true}
+var errHandshakeEOF = errors.New("EOF")
+
+// refusal: how a failed connection attempt is reported (natively the
+// listener accepts and closes, which the client sees as EOF in the handshake).
+func refusal() error {
+	if verifrt.Choice("refusal-kind", 2) == 1 {
+		return errHandshakeEOF
+	}
+	return errRefused
+}
 var errClosed = errors.New("use of closed connection")
 
 func validHost(hostport string) bool {
@@ -127,8 +150,11 @@ func VerifDial(dialer *net.Dialer, network, addr string, cfg *tls.Config) (*tls.
 	if w.AnyHost && !w.Refuse[addr] {
 		known = true
 	}
-	if !known || w.Refuse[addr] {
+	if !known {
 		return nil, errRefused
+	}
+	if w.Refuse[addr] {
+		return nil, refusal()
 	}
 	if w.StallHandshake[addr] {
 		// tls.DialWithDialer bounds connecting and the handshake by Dialer.Timeout
